@@ -1,7 +1,9 @@
 """C20 — tests are isolated from each other and results are deterministic.
 
 Obligations: T-copies (copy-vs-share tables of create_branch / run_message / Path.branch /
-Path.extend_path regenerated from sevm.py), Props/C20.vo, lint.
+Path.extend_path regenerated from sevm.py), T-frontierflow (what reaches the contract-level frontier
+cache: provenance of the values run_message hands down to get_frontier / _compute_frontier /
+run_target_contract / run_target_function, regenerated from __main__.py), Props/C20.vo, lint.
 Ties:
   S  store: run-time object identities of the real create_branch / run_message / Path.branch /
      extend_path against the regenerated tables (translator self-check) and, per field and
@@ -12,7 +14,11 @@ Ties:
   L3 generated test contracts (regular and invariant tests, storage written by setUp) run
      through the real `halmos._main` in every order / subset, repeatedly in one process and
      under three deterministic uuid4 streams; every test's result must equal its result
-     alone (specification) and the extracted runner model (c20_run) must predict it.
+     alone (specification) and the extracted runner model (c20_run_cfg) must predict it.  Tests may
+     carry function-level `@custom:halmos` annotations (--width, --loop, --invariant-depth): every
+     test has its own config, the target `bump(uint256)` makes the explored transactions depend on
+     the loop bound of the config that explores them; which config object run_target_function
+     receives is also observed at run time and compared with T-frontierflow.
 """
 import contextlib
 import itertools
@@ -23,7 +29,7 @@ import time
 from harness import common, pool
 
 PID = "C20"
-TRANSLATORS = ["T-copies"]
+TRANSLATORS = ["T-copies", "T-frontierflow"]
 
 # Genuine defects of halmos reproduced by this check on the unchanged tree (reported, not repaired).
 KNOWN = common.known_for("C20")  # entries live in /verif/known_findings.json
@@ -41,6 +47,8 @@ ASSUMPTIONS = [
     "ByteVec.copy() independence below the ByteVec object is property C07",
     "a state of the runner model is an integer; the test body and the target step are pure functions of it "
     "(that SEVM.run_message does not mutate its pre-state is the store theorem + the L2 pre-state fingerprint check)",
+    "a configuration of the runner model is an integer; what a target transaction reaches is a function of the exploring configuration and the "
+    "pre-state (cstep); in the L3 correspondence a configuration is identified with its loop bound",
     "C20_rename_verdict assumes a sound and complete solver (hypotheses in the statement); real solvers may time out",
     "the extracted model and driver are faithful to the Coq definitions (extraction is trusted)",
 ]
@@ -49,17 +57,42 @@ REG_KINDS = ["eqmagic", "slotplus", "write", "slotis", "writex", "two", "reverta
 INV_KINDS = ["inv_lt", "inv_ne", "inv_slot"]
 TARGET_FUNS = ["inc", "add2", "dbl", "reset", "cap3"]
 NSTATES = 16
+DEFAULT_LOOP = 2      # halmos' default --loop
+MAX_LOOP = 4
+
+
+def test_opts(spec, t):
+    """options of the function-level annotation of test t: {'width': w, 'loop': L, 'invariant-depth': d}"""
+    toks = ((spec.get("devdoc") or {}).get(t[0]) or "").split()
+    assert len(toks) % 2 == 0, toks
+    return {toks[i][2:]: int(toks[i + 1]) for i in range(0, len(toks), 2)}
+
+
+def contract_loop(spec):
+    return spec.get("loop") or DEFAULT_LOOP
+
+
+def test_loop(spec, t):
+    return test_opts(spec, t).get("loop", contract_loop(spec))
+
+
+def test_depth(spec, t):
+    if not t[1].startswith("inv_"):
+        return 0
+    return test_opts(spec, t).get("invariant-depth", spec["depth"])
 
 
 # ----------------------------------------------------------------- generated contracts
 
 def gen_spec(r, i, flavour):
-    """flavour: 'regular' | 'invariant' | 'mixed' | 'f10w' | 'f10e' | 'symbolic'"""
+    """flavour: 'regular' | 'invariant' | 'mixed' | 'f10w' | 'f10e' | 'symbolic' | 'cfg'"""
     a = r.choice([0, 1, 5, 7, 7, 41])
     names = ["a", "b", "c", "d"]
     tests = []
     target = None
     devdoc = {}
+    if flavour == "cfg":
+        return gen_cfg_spec(r, i)
     if flavour in ("regular", "mixed", "symbolic"):
         n = r.randint(2, 4) if flavour == "regular" else r.randint(1, 2)
         kinds = r.sample(REG_KINDS, n)
@@ -93,6 +126,36 @@ def gen_spec(r, i, flavour):
     return spec
 
 
+def gen_cfg_spec(r, i):
+    """invariant tests with their own configs over a target whose transactions depend on the loop bound"""
+    names = ["a", "b", "c"]
+    target = ["bump"] + r.sample(["inc", "reset", "cap3"], r.randint(0, 1))
+    r.shuffle(target)
+    loop = r.choice([None, None, 1, 3])
+    depth = r.choice([1, 1, 2])
+    ninv = r.randint(2, 3)
+    tests, devdoc = [], {}
+    base = loop or DEFAULT_LOOP
+    for j in range(ninv):
+        k = r.choice(["inv_lt", "inv_lt", "inv_ne"])
+        # thresholds around what the different bounds reach
+        p = r.choice([base, base + 1, base + 1, base + 2, 2 * base + 1]) if k == "inv_lt" else r.choice([base, base + 1, base + 2])
+        tests.append([names[j], k, p])
+        opts = []
+        if r.random() < 0.6:
+            opts += ["--loop", str(r.choice([x for x in range(1, MAX_LOOP + 1) if x != base]))]
+        if r.random() < 0.25:
+            opts += ["--invariant-depth", str(3 - depth)]
+        if opts:
+            devdoc[names[j]] = " ".join(opts)
+    if not any("--loop" in d for d in devdoc.values()):
+        devdoc[names[r.randrange(ninv)]] = f"--loop {base + 1}"
+    if r.random() < 0.4:
+        tests.insert(r.randrange(len(tests) + 1), ["r", r.choice(["eqmagic", "two", "write"]), 7])
+    return {"id": i, "flavour": "cfg", "slot1": r.choice([0, 5]), "target": target, "tests": tests, "depth": depth,
+            "loop": loop, "toml": True, "devdoc": devdoc, "early_exit": False}
+
+
 def corpus_specs():
     """minimal hand-written contracts, run first"""
     return [
@@ -103,6 +166,14 @@ def corpus_specs():
         # (the loop breaks one pull after the counterexample: frontier[1] = [c=1, c=0 written], c=2 is missing)
         {"id": "corpus-f10e", "flavour": "f10e", "slot1": 5, "target": ["inc", "reset", "add2"], "depth": 1,
          "tests": [["a", "inv_ne", 1], ["b", "inv_ne", 2]], "devdoc": {}, "early_exit": True},
+        # per-test config: invariant_a is annotated with --loop 3, invariant_b is not (contract bound 2); bump() reaches
+        # c = 3 only under bound 3.  The shared frontier must not be explored with invariant_a's private config.
+        {"id": "corpus-cfg-loop", "flavour": "cfg", "slot1": 5, "target": ["bump"], "depth": 1, "loop": None, "toml": True,
+         "tests": [["a", "inv_lt", 3], ["b", "inv_lt", 3]], "devdoc": {"a": "--loop 3"}, "early_exit": False},
+        # ... and with a private --invariant-depth as well: invariant_a goes one transaction deeper than invariant_b;
+        # the contract-level bound comes from halmos.toml
+        {"id": "corpus-cfg-depth", "flavour": "cfg", "slot1": 0, "target": ["bump", "reset"], "depth": 1, "loop": 1, "toml": True,
+         "tests": [["a", "inv_ne", 2], ["b", "inv_ne", 2]], "devdoc": {"a": "--invariant-depth 2", "b": "--loop 2"}, "early_exit": False},
         # a test that writes storage followed by one that reads it
         {"id": "corpus-write-read", "flavour": "regular", "slot1": 5, "target": None, "depth": 0,
          "tests": [["a", "write", 7], ["b", "slotis", 7], ["c", "slotplus", 100], ["d", "tstore", 7]], "devdoc": {}, "early_exit": False},
@@ -156,6 +227,7 @@ def l3_task(task):
 
     spec, runs = task
     out = []
+    cfg_seen = set()
     t0 = time.time()
     with L.workspace() as d:
         roots = {}
@@ -164,7 +236,9 @@ def l3_task(task):
             if key not in roots:
                 sp = dict(spec, tests=[spec["tests"][i] for i in run["order"]])
                 roots[key] = L.build_project(os.path.join(d, "p" + "_".join(map(str, key))), sp)
-            extra = ["--invariant-depth", str(spec["depth"])]
+            # command-line options override function-level annotations: contracts whose tests carry their own
+            # --loop / --invariant-depth get the contract-level values from halmos.toml (written by build_project)
+            extra = [] if spec.get("toml") else ["--invariant-depth", str(spec["depth"])]
             if spec.get("early_exit"):
                 extra.append("--early-exit")
             if run["match"] is not None:
@@ -176,11 +250,12 @@ def l3_task(task):
                         stack.enter_context(L.fast_solver_schedule())
                     if run["uid"]:
                         stack.enter_context(L.patched_uuid(run["uid"]))
+                    stack.enter_context(L.observe_explore_cfg(cfg_seen))
                     summ, text = L.run_halmos(roots[key], extra)
                 out.append({"run": run, "summary": summ, "tail": text[-600:] if "Traceback" in text or "ERROR" in text else ""})
             except Exception as e:  # noqa: BLE001
                 out.append({"run": run, "error": f"{type(e).__name__}: {e}"})
-    return {"spec": spec, "runs": out, "seconds": round(time.time() - t0, 1)}
+    return {"spec": spec, "runs": out, "seconds": round(time.time() - t0, 1), "explore_cfg_seen": sorted(cfg_seen)}
 
 
 # ----------------------------------------------------------------- abstraction for the runner model
@@ -226,25 +301,33 @@ def body_codes(spec, t, c):
 
 
 def model_input(spec, order, budgets):
-    """encoding for c20_run / c20_spec; budgets: {test index: k} (paths pulled before the break).
+    """encoding for c20_run_cfg; budgets: {test index: k} (paths pulled before the break).
     State NSTATES-1 is the post-setUp state (counter slot never written, value 0): halmos' state id
-    distinguishes it from the state in which 0 has been written explicitly (state 0)."""
-    K, P = 5, 2
+    distinguishes it from the state in which 0 has been written explicitly (state 0).
+    A config is identified with its loop bound (0..MAX_LOOP): the step table of config e is what one target
+    transaction reaches when it is explored under --loop e (bump: c+0 -- no SSTORE, the very same state -- ... c+e).
+    Every test carries its own config (annotation over the contract's) and its own depth; WHICH config explores
+    the frontier is not decided here but by the model (Model.frontier_cfg, regenerated from __main__.py)."""
+    K, P = 8, 2
     n = NSTATES
+    nc = MAX_LOOP + 1
     cval = lambda idx: 0 if idx == n - 1 else idx  # noqa: E731
     steps = []
-    for idx in range(n):
-        succ = []
-        for f in spec["target"] or []:
-            v = target_apply(f, cval(idx))
-            if v is not None and v < n - 1:
-                succ.append(v)
-        steps += succ + [-1] * (K - len(succ))
-    a = [n, K, P, n - 1, len(order)] + steps + list(range(n))
+    for e in range(nc):
+        for idx in range(n):
+            succ = []
+            for f in spec["target"] or []:
+                if f == "bump":
+                    vs = [idx] + [cval(idx) + k for k in range(1, e + 1)]
+                else:
+                    vs = [target_apply(f, cval(idx))]
+                succ += [v for v in vs if v is not None and (v < n - 1 or v == idx)]
+            assert len(succ) <= K, succ
+            steps += succ + [-1] * (K - len(succ))
+    a = [n, K, P, n - 1, len(order), nc, contract_loop(spec)] + steps + list(range(n))
     for i in order:
         t = spec["tests"][i]
-        depth = spec["depth"] if t[1].startswith("inv_") else 0
-        a += [depth, budgets.get(i, -1)]
+        a += [test_loop(spec, t), test_depth(spec, t), budgets.get(i, -1)]
         for idx in range(n):
             codes = body_codes(spec, t, cval(idx))
             a += codes + [-1] * (P - len(codes))
@@ -268,9 +351,9 @@ def result_of_codes(codes):
 def width_budgets(spec, order):
     b = {}
     for i in order:
-        d = (spec.get("devdoc") or {}).get(spec["tests"][i][0])
-        if d and d.startswith("--width "):
-            b[i] = int(d.split()[1]) + 1
+        w = test_opts(spec, spec["tests"][i]).get("width")
+        if w is not None:
+            b[i] = w + 1
     return b
 
 
@@ -302,6 +385,15 @@ def analyse_contract(rep, res, model, record):
     ee = bool(spec.get("early_exit"))
     alone = {}
     nontrivial = False
+    # run-time cross-check of T-frontierflow: the config object run_target_function received while a test
+    # with a private config was running
+    seen = set(res.get("explore_cfg_seen") or [])
+    for x in sorted(seen):
+        rep.count("explore_cfg_seen", x)
+    want = {"SrcContract": {"contract"}, "SrcTest": {"test"}}.get(FLOW.get("explore_cfg_src"))
+    if seen and want is not None and not seen <= want:
+        rep.fail("broken-tie", f"T-frontierflow says the target transactions are explored under {FLOW.get('explore_cfg_src')} but at run time "
+                 f"run_target_function received the config of: {sorted(seen)} (contract {spec['id']})", case={"spec": spec, "seen": sorted(seen)})
     for r in res["runs"]:
         if "error" in r:
             rep.fail("broken-tie", f"halmos run crashed in the harness: {r['error']}", case={"spec": spec, "run": r["run"]})
@@ -330,9 +422,12 @@ def analyse_contract(rep, res, model, record):
             if a == g:
                 continue
             earlier = [tests[j] for j in ran[:pos]]
-            interrupted = [e for e in earlier if e[1].startswith("inv_") and (ee or (spec.get("devdoc") or {}).get(e[0], "").startswith("--width"))]
+            interrupted = [e for e in earlier if e[1].startswith("inv_") and (ee or "width" in test_opts(spec, e))]
+            other_cfg = [e for e in earlier if e[1].startswith("inv_") and test_loop(spec, e) != contract_loop(spec)]
             if t[1].startswith("inv_") and interrupted and (g or {}).get("exitcode") in (0, 1):
                 sig = {"defect": "partial-frontier-cache", "interrupt": "early-exit" if ee else "width"}
+            elif t[1].startswith("inv_") and other_cfg and not interrupted:
+                sig = {"defect": "frontier-explored-under-another-tests-config", "test_kind": t[1], "run": run["label"]}
             else:
                 sig = {"defect": "schedule-dependent-result", "test_kind": t[1], "run": run["label"]}
             failure = dict(kind="failing-input",
@@ -368,12 +463,13 @@ def analyse_contract(rep, res, model, record):
 
 
 _MODEL_CACHE = {}
+FLOW = {}     # info of T-frontierflow (filled by run)
 
 
 def model_results(spec, idxs, budgets, model):
     key = (json.dumps(spec, sort_keys=True), tuple(idxs), tuple(sorted(budgets.items())))
     if key not in _MODEL_CACHE:
-        res = model.batch([("c20_run", model_input(spec, idxs, budgets))])[0]
+        res = model.batch([("c20_run_cfg", model_input(spec, idxs, budgets))])[0]
         _MODEL_CACHE[key] = [result_of_codes(c) for c in decode_model(res, len(idxs))]
     return _MODEL_CACHE[key]
 
@@ -582,12 +678,20 @@ def run(rep, tier):
         rep.coverage["store_pokes"] = n_store
         rep.coverage["store_seconds"] = round(time.time() - t_store, 1)
 
+    try:
+        from translate import t_frontierflow
+
+        FLOW.update(t_frontierflow.translate((common.SRC / "__main__.py").read_text())[1])
+    except Exception:  # noqa: BLE001  (reported by standard_obligations as a broken translator)
+        FLOW.clear()
+    rep.coverage["frontier_flow"] = {k: FLOW.get(k) for k in ("explore_cfg_src", "frontier_test_inputs", "cache_key_depth_only")}
+
     # --- L3 + L2 in one worker pool (corpus first)
     from harness import c20_dyn
 
     specs = corpus_specs()
     n_gen = 8 if tier == "quick" else 220
-    flavours = ["regular", "invariant", "mixed", "f10w", "mixed", "invariant", "f10e", "symbolic", "regular", "mixed"]
+    flavours = ["cfg", "regular", "invariant", "mixed", "cfg", "f10w", "mixed", "invariant", "f10e", "symbolic", "regular", "mixed"]
     for i in range(n_gen):
         specs.append(gen_spec(r, i, flavours[i % len(flavours)]))
     l3_tasks = [("l3", (s, plan_for(s, r, tier))) for s in specs]
@@ -605,9 +709,9 @@ def run(rep, tier):
     old_tmp = (tempfile.tempdir, os.environ.get("TMPDIR"))
     tempfile.tempdir = tmp_base
     os.environ["TMPDIR"] = tmp_base
-    first = l3_tasks[:4] + l2_tasks[:8]
+    first = l3_tasks[:6] + l2_tasks[:8]
     rest = []
-    a, b = l3_tasks[4:], l2_tasks[8:]
+    a, b = l3_tasks[6:], l2_tasks[8:]
     for i in range(max(len(a), len(b))):      # interleaved so that both kinds progress under the time budget
         rest += a[i:i + 1] + b[i:i + 1]
     out1 = pool.run_tasks(any_task, first, timeout=400, total_timeout=600)
@@ -674,12 +778,14 @@ def run(rep, tier):
     rep.coverage["known_findings_hits"] = len(known_hits)
     rep.coverage["traces_validated_against_impl"] = rep.coverage.get("contracts_model_checked", 0)
     return rep.finish(
-        checker_cmd="make -C coq Props/C20.vo (coq_makefile, coqc 8.16.1) after regenerating coq/Gen/GenCopies.v from /repo/src/halmos/sevm.py",
+        checker_cmd="make -C coq Props/C20.vo (coq_makefile, coqc 8.16.1) after regenerating coq/Gen/GenCopies.v from /repo/src/halmos/sevm.py "
+                    "and coq/Gen/GenFrontierFlow.v from /repo/src/halmos/__main__.py",
         trusted_base=common.TRUSTED_BASE_COMMON,
         assumptions=ASSUMPTIONS,
         partial=PARTIAL,
         rule="L3 cases = (generated test contract, schedule, test): contracts have <= 4 tests (regular: unique planted counterexample, storage written by setUp "
-             "and read back, storage/transient writers followed by readers, all-revert; invariant: bounds on a target counter driven by inc/add2/dbl/reset/cap3/setx), "
+             "and read back, storage/transient writers followed by readers, all-revert; invariant: bounds on a target counter driven by inc/add2/dbl/reset/cap3/setx/bump(n); "
+             "flavour cfg: invariant tests with function-level annotations --loop L / --invariant-depth d over the loop-bound-sensitive target bump, optional contract-level --loop), "
              "schedules = all tests, each alone, permutations (fabricated methodIdentifiers orders), subsets (--match-test), a repeated run, three deterministic uuid4 streams, "
              "all inside one process per contract; a case is non-trivial when the test is not first in its schedule, or runs under a patched uuid stream or in the repeated run; "
              "compared: exit code, counterexample count, counterexample symbols (uid fragments stripped) and values where unique, path counts, loop-bound count. "
